@@ -39,8 +39,8 @@ func (v *VC) init() {
 	v.hdrDecr = map[*ssa.BasicBlock]string{}
 	v.varOut = map[*ssa.BasicBlock]map[string]ssa.Value{}
 	v.addrOut = map[*ssa.BasicBlock]map[string]ssa.Value{}
-	v.allocID = map[ssa.Value]int{}
-	v.fvRoot = map[*ssa.FreeVar]int{}
+	v.allocID = map[ssa.Value]string{}
+	v.fvRoot = map[*ssa.FreeVar]string{}
 }
 
 func (v *VC) paramEnv(h *Heap, venv map[string]ssa.Value, aenv map[string]ssa.Value) *SpecEnv {
@@ -65,7 +65,6 @@ func (v *VC) paramEnv(h *Heap, venv map[string]ssa.Value, aenv map[string]ssa.Va
 func (v *VC) Generate() {
 	fn := v.fn
 	v.analyzeLoops()
-	v.assignAllocs(fn)
 	order := v.topo()
 	h := &Heap{m: map[string]string{}, epoch: 0}
 	for _, p := range fn.Params {
@@ -144,7 +143,6 @@ func (v *VC) GenerateInline(callee *ssa.Function, args []string, bindings []ssa.
 		c.fvRoot[fv] = v.rootOf(bindings[k])
 	}
 	c.analyzeLoops()
-	c.assignAllocs(callee)
 	v.inlStack = append(v.inlStack, callee)
 	defer func() { v.inlStack = v.inlStack[:len(v.inlStack)-1] }()
 	order := c.topo()
@@ -258,7 +256,7 @@ type loopMod struct {
 	call    bool
 	ghosts  bool
 	unknown map[string]bool
-	known   map[string]map[int]bool
+	known   map[string]map[string]bool
 }
 
 func (v *VC) leafKeys(t types.Type, f func(key, sort string)) {
@@ -273,18 +271,11 @@ func (v *VC) leafKeys(t types.Type, f func(key, sort string)) {
 }
 
 // modOfInstrs collects what a set of instructions may write (through inlinable callees too).
-func (v *VC) modOf(fn *ssa.Function, blocks func(yield func(*ssa.BasicBlock)), root func(ssa.Value) int, m *loopMod, depth int) {
-	add := func(t types.Type, r int) {
+func (v *VC) modOf(fn *ssa.Function, blocks func(yield func(*ssa.BasicBlock)), root func(ssa.Value) string, m *loopMod, depth int) {
+	add := func(t types.Type, r string) {
 		v.leafKeys(t, func(k, s string) {
 			v.registerKey(k, s)
-			if r == 0 {
-				m.unknown[k] = true
-			} else {
-				if m.known[k] == nil {
-					m.known[k] = map[int]bool{}
-				}
-				m.known[k][r] = true
-			}
+			m.addRoot(k, r)
 		})
 	}
 	blocks(func(b *ssa.BasicBlock) {
@@ -295,16 +286,8 @@ func (v *VC) modOf(fn *ssa.Function, blocks func(yield func(*ssa.BasicBlock)), r
 			case *ssa.MapUpdate:
 				dk, vk, _, _ := v.mapKeys(i.Map.Type().Underlying().(*types.Map))
 				r := root(i.Map)
-				for _, k := range []string{dk, vk} {
-					if r == 0 {
-						m.unknown[k] = true
-					} else {
-						if m.known[k] == nil {
-							m.known[k] = map[int]bool{}
-						}
-						m.known[k][r] = true
-					}
-				}
+				m.addRoot(dk, r)
+				m.addRoot(vk, r)
 			case *ssa.Go, *ssa.Select, *ssa.Send:
 				m.call = true
 			case *ssa.UnOp:
@@ -322,7 +305,7 @@ func (v *VC) modOf(fn *ssa.Function, blocks func(yield func(*ssa.BasicBlock)), r
 	})
 }
 
-func (v *VC) modOfCall(fn *ssa.Function, c *ssa.CallCommon, root func(ssa.Value) int, m *loopMod, depth int) {
+func (v *VC) modOfCall(fn *ssa.Function, c *ssa.CallCommon, root func(ssa.Value) string, m *loopMod, depth int) {
 	if bi, ok := c.Value.(*ssa.Builtin); ok {
 		switch bi.Name() {
 		case "append":
@@ -336,16 +319,8 @@ func (v *VC) modOfCall(fn *ssa.Function, c *ssa.CallCommon, root func(ssa.Value)
 			if mt, ok := c.Args[0].Type().Underlying().(*types.Map); ok {
 				dk, vk, _, _ := v.mapKeys(mt)
 				r := root(c.Args[0])
-				for _, k := range []string{dk, vk} {
-					if r == 0 {
-						m.unknown[k] = true
-					} else {
-						if m.known[k] == nil {
-							m.known[k] = map[int]bool{}
-						}
-						m.known[k][r] = true
-					}
-				}
+				m.addRoot(dk, r)
+				m.addRoot(vk, r)
 			}
 		}
 		return
@@ -390,25 +365,8 @@ func (v *VC) modOfCall(fn *ssa.Function, c *ssa.CallCommon, root func(ssa.Value)
 		return
 	}
 	if depth < 4 && v.P.inRepo(callee) && v.inlinable(callee) {
-		sub := func(x ssa.Value) int {
-			switch a := x.(type) {
-			case *ssa.FreeVar:
-				for k, fv := range callee.FreeVars {
-					if fv == a && k < len(bindings) {
-						return root(bindings[k])
-					}
-				}
-				return 0
-			case *ssa.FieldAddr:
-				return 0 + v.subRoot(a.X, callee, bindings, root)
-			case *ssa.IndexAddr:
-				return v.subRoot(a.X, callee, bindings, root)
-			case *ssa.Alloc, *ssa.MakeMap:
-				return -1 // callee-local fresh object
-			}
-			return 0
-		}
-		inner := &loopMod{unknown: map[string]bool{}, known: map[string]map[int]bool{}}
+		sub := func(x ssa.Value) string { return v.subRoot(x, callee, bindings, root) }
+		inner := &loopMod{unknown: map[string]bool{}, known: map[string]map[string]bool{}}
 		v.modOf(callee, func(y func(*ssa.BasicBlock)) {
 			for _, b := range callee.Blocks {
 				y(b)
@@ -429,13 +387,7 @@ func (v *VC) modOfCall(fn *ssa.Function, c *ssa.CallCommon, root func(ssa.Value)
 		}
 		for k, rs := range inner.known {
 			for r := range rs {
-				if r == -1 {
-					continue
-				}
-				if m.known[k] == nil {
-					m.known[k] = map[int]bool{}
-				}
-				m.known[k][r] = true
+				m.addRoot(k, r)
 			}
 		}
 		return
@@ -443,7 +395,21 @@ func (v *VC) modOfCall(fn *ssa.Function, c *ssa.CallCommon, root func(ssa.Value)
 	m.call, m.ghosts = true, true
 }
 
-func (v *VC) subRoot(x ssa.Value, callee *ssa.Function, bindings []ssa.Value, root func(ssa.Value) int) int {
+func (m *loopMod) addRoot(k, r string) {
+	switch r {
+	case "":
+		m.unknown[k] = true
+	case freshRoot:
+		// object created inside the region: not covered by the frame anyway
+	default:
+		if m.known[k] == nil {
+			m.known[k] = map[string]bool{}
+		}
+		m.known[k][r] = true
+	}
+}
+
+func (v *VC) subRoot(x ssa.Value, callee *ssa.Function, bindings []ssa.Value, root func(ssa.Value) string) string {
 	switch a := x.(type) {
 	case *ssa.FreeVar:
 		for k, fv := range callee.FreeVars {
@@ -455,10 +421,12 @@ func (v *VC) subRoot(x ssa.Value, callee *ssa.Function, bindings []ssa.Value, ro
 		return v.subRoot(a.X, callee, bindings, root)
 	case *ssa.IndexAddr:
 		return v.subRoot(a.X, callee, bindings, root)
+	case *ssa.Slice:
+		return v.subRoot(a.X, callee, bindings, root)
 	case *ssa.Alloc, *ssa.MakeMap:
-		return -1
+		return freshRoot
 	}
-	return 0
+	return ""
 }
 
 func (v *VC) closureOf(x ssa.Value) *ssa.MakeClosure {
@@ -560,7 +528,7 @@ func (v *VC) genBlock(b *ssa.BasicBlock, initHeap *Heap) {
 			}
 		}
 		// 2. havoc what the loop may modify
-		mod := &loopMod{unknown: map[string]bool{}, known: map[string]map[int]bool{}}
+		mod := &loopMod{unknown: map[string]bool{}, known: map[string]map[string]bool{}}
 		body := v.loopBody[b]
 		v.modOf(v.fn, func(y func(*ssa.BasicBlock)) {
 			for _, bb := range v.fn.Blocks {
@@ -569,12 +537,13 @@ func (v *VC) genBlock(b *ssa.BasicBlock, initHeap *Heap) {
 				}
 			}
 		}, v.rootOf, mod, 0)
-		ei := &epochInfo{kind: "havoc", parent: heap.epoch, all: mod.call, ghosts: mod.ghosts, unknown: mod.unknown, known: map[string][]int{}}
+		oldClk, newClk := v.advanceClock(heap)
+		ei := &epochInfo{kind: "havoc", parent: heap.epoch, all: mod.call, ghosts: mod.ghosts, unknown: mod.unknown, known: map[string][]string{}, entryClock: oldClk, newClock: newClk}
 		for k, rs := range mod.known {
 			for r := range rs {
 				ei.known[k] = append(ei.known[k], r)
 			}
-			sort.Ints(ei.known[k])
+			sort.Strings(ei.known[k])
 		}
 		keys := make([]string, 0, len(heap.m))
 		for k := range heap.m {
@@ -589,15 +558,15 @@ func (v *VC) genBlock(b *ssa.BasicBlock, initHeap *Heap) {
 			old := heap.m[k]
 			v.heapVer++
 			nm := fmt.Sprintf("H%d_%s", v.heapVer, sanitize(k))
-			v.emit("(declare-const %s %s)", nm, v.heapSortOf(k))
-			v.emitFrame(k, nm, old, ei.known[k], ei.extOnly(k))
+			v.declHeap(nm, k)
+			v.emitFrame(k, nm, old, ei.known[k], ei.extOnly(k), oldClk, newClk)
 			heap.m[k] = nm
 		}
 		heap.epoch = ne
 		before := map[string]TV{}
 		for _, phi := range phis {
 			n := v.declare(phi)
-			_ = n
+			v.assume("true", v.validFactC(phi.Type(), n, newClk))
 			if phi.Comment != "" {
 				before[phi.Comment] = TV{T: phiTerm(phi), Typ: phi.Type()}
 			}
@@ -661,6 +630,7 @@ func (v *VC) genBlock(b *ssa.BasicBlock, initHeap *Heap) {
 }
 
 func (v *VC) genInstr(in ssa.Instruction, g string, heap *Heap) {
+	v.curHeap = heap
 	switch i := in.(type) {
 	case *ssa.DebugRef:
 		if id, ok := i.Expr.(*ast.Ident); ok {
@@ -677,8 +647,9 @@ func (v *VC) genInstr(in ssa.Instruction, g string, heap *Heap) {
 	case *ssa.UnOp:
 		v.genUnOp(i, g, heap)
 	case *ssa.Alloc:
-		id := v.allocID[i]
-		v.define(i, fmt.Sprintf("(obj %d)", id))
+		id := v.newAlloc(v.isPrivate(i), heap)
+		v.allocID[i] = id
+		v.define(i, fmt.Sprintf("(obj %s)", id))
 		et := i.Type().Underlying().(*types.Pointer).Elem()
 		if i.Comment != "" && token.IsIdentifier(i.Comment) {
 			v.curAddr[i.Comment] = i
@@ -742,22 +713,23 @@ func (v *VC) genInstr(in ssa.Instruction, g string, heap *Heap) {
 		v.heapSet(heap, dk, fmt.Sprintf("(store %s %s (store (select %s %s) %s true))", hd, m, hd, m, k))
 		v.heapSet(heap, vk, fmt.Sprintf("(store %s %s (store (select %s %s) %s %s))", hv, m, hv, m, k, val))
 	case *ssa.MakeMap:
-		id := v.allocID[i]
-		v.define(i, fmt.Sprintf("(obj %d)", id))
+		id := v.newAlloc(v.isPrivate(i), heap)
+		v.allocID[i] = id
+		v.define(i, fmt.Sprintf("(obj %s)", id))
 		mt := i.Type().Underlying().(*types.Map)
 		dk, _, ks, _ := v.mapKeys(mt)
 		hd := v.heapGet(heap, dk, fmt.Sprintf("RAW:(Array Ptr (Array %s Bool))", ks))
 		v.heapSet(heap, dk, fmt.Sprintf("(store %s %s ((as const (Array %s Bool)) false))", hd, v.val(i), ks))
 	case *ssa.MakeSlice:
-		id := v.allocID[i]
+		id := v.newAlloc(false, heap)
 		ln, cp := v.val(i.Len), v.val(i.Cap)
 		v.safety("make-size", g, fmt.Sprintf("(and (<= 0 %s) (<= %s %s))", ln, ln, cp), i.Pos())
-		v.define(i, fmt.Sprintf("(mk-slice (obj %d) 0 %s %s)", id, ln, cp))
+		v.define(i, fmt.Sprintf("(mk-slice (obj %s) 0 %s %s)", id, ln, cp))
 		et := i.Type().Underlying().(*types.Slice).Elem()
 		v.zeroRegion(et, id, heap)
 	case *ssa.MakeClosure:
-		id := v.allocID[i]
-		v.define(i, fmt.Sprintf("(obj %d)", id))
+		id := v.newAlloc(false, heap)
+		v.define(i, fmt.Sprintf("(obj %s)", id))
 		v.closures[i] = i
 	case *ssa.Convert:
 		v.genConvert(i, g)
@@ -811,8 +783,7 @@ func (v *VC) genInstr(in ssa.Instruction, g string, heap *Heap) {
 		v.unsupp("channel send (treated as an arbitrary call)")
 		v.havocAll(heap, false)
 	case *ssa.MakeChan:
-		v.escID++
-		v.define(i, fmt.Sprintf("(obj %d)", escBase+v.escID))
+		v.define(i, fmt.Sprintf("(obj %s)", v.newAlloc(false, heap)))
 	case *ssa.SliceToArrayPointer:
 		v.unsupp("slice to array pointer")
 		v.declare(i)
@@ -831,7 +802,7 @@ func (v *VC) contractAllowsPanic() bool {
 	return v.contract != nil && v.contract.AllowPanic
 }
 
-func (v *VC) zeroInit(et types.Type, ptr string, id int, heap *Heap) {
+func (v *VC) zeroInit(et types.Type, ptr string, id string, heap *Heap) {
 	if _, ok := et.Underlying().(*types.Array); ok {
 		arr := et.Underlying().(*types.Array)
 		v.zeroRegion(arr.Elem(), id, heap)
@@ -869,16 +840,16 @@ func (v *VC) leafKeysArr(t types.Type, f func(key, sort, zero string)) {
 }
 
 // zeroRegion: every cell of the fresh object id holds the zero value.
-func (v *VC) zeroRegion(et types.Type, id int, heap *Heap) {
+func (v *VC) zeroRegion(et types.Type, id string, heap *Heap) {
 	v.leafKeysArr(et, func(k, s, zero string) { v.regionSet(k, s, id, zero, heap) })
 }
 
-func (v *VC) regionSet(key, srt string, id int, zero string, heap *Heap) {
+func (v *VC) regionSet(key, srt string, id string, zero string, heap *Heap) {
 	old := v.heapGet(heap, key, srt)
 	v.heapVer++
 	nm := fmt.Sprintf("H%d_%s", v.heapVer, sanitize(key))
-	v.emit("(declare-const %s %s)", nm, v.heapSortOf(key))
-	v.emit("(assert (forall ((p Ptr)) (! (= (select %s p) (ite (= (root p) %d) %s (select %s p))) :pattern ((select %s p)))))", nm, id, zero, old, nm)
+	v.declHeap(nm, key)
+	v.emit("(assert (forall ((p Ptr)) (! (= (select %s p) (ite (= (root p) %s) %s (select %s p))) :pattern ((select %s p)))))", nm, id, zero, old, nm)
 	heap.m[key] = nm
 }
 
@@ -898,6 +869,7 @@ func (v *VC) genUnOp(i *ssa.UnOp, g string, heap *Heap) {
 		}
 		v.define(i, v.load(i.Type(), x, heap))
 		v.assume(g, v.rangeFact(i.Type(), v.val(i)))
+		v.assume(g, v.validFact(i.Type(), v.val(i), heap))
 	case token.NOT:
 		v.define(i, "(not "+x+")")
 	case token.SUB:
@@ -1002,9 +974,11 @@ func (v *VC) genLookup(i *ssa.Lookup, g string, heap *Heap) {
 			v.emit("(define-fun %s_0 () %s %s)", n, vs, valT)
 			v.emit("(define-fun %s_1 () Bool %s)", n, okT)
 			v.assume(g, v.rangeFact(mt.Elem(), n+"_0"))
+			v.assume(g, v.validFact(mt.Elem(), n+"_0", heap))
 		} else {
 			v.emit("(define-fun %s () %s %s)", n, vs, valT)
 			v.assume(g, v.rangeFact(mt.Elem(), n))
+			v.assume(g, v.validFact(mt.Elem(), n, heap))
 		}
 		return
 	}
@@ -1035,6 +1009,8 @@ func (v *VC) genNext(i *ssa.Next, g string, heap *Heap) {
 	v.assume(g, fmt.Sprintf("(=> %s_0 (and (not (= %s nilp)) (select (select %s %s) %s_1)))", n, m, hd, m, n))
 	v.assume(g, v.rangeFact(mt.Key(), n+"_1"))
 	v.assume(g, v.rangeFact(mt.Elem(), n+"_2"))
+	v.assume(g, v.validFact(mt.Key(), n+"_1", heap))
+	v.assume(g, v.validFact(mt.Elem(), n+"_2", heap))
 	v.note("map iteration: each step yields an arbitrary key of the map (order and coverage not modelled)")
 }
 
@@ -1046,8 +1022,7 @@ func (v *VC) genConvert(i *ssa.Convert, g string) {
 		v.define(i, wrapTo(to, v.val(i.X)))
 	case fs == "Str" && ts == "Slice":
 		n := v.declare(i)
-		v.escID++
-		v.assume(g, fmt.Sprintf("(and (= (s-len %s) (strlen %s)) (= (s-off %s) 0) (= (s-base %s) (ite (= (strlen %s) 0) (s-base %s) (obj %d))))", n, v.val(i.X), n, n, v.val(i.X), n, escBase+v.escID))
+		v.assume(g, fmt.Sprintf("(and (= (s-len %s) (strlen %s)) (= (s-off %s) 0) (= (s-base %s) (ite (= (strlen %s) 0) (s-base %s) (obj %s))))", n, v.val(i.X), n, n, v.val(i.X), n, v.newAlloc(false, v.curHeap)))
 		v.useBytesOf()
 		v.assume(g, fmt.Sprintf("(= (bytes.str %s) %s)", n, v.val(i.X)))
 	case fs == "Slice" && ts == "Str":
@@ -1174,7 +1149,7 @@ func (v *VC) genReturn(i *ssa.Return, g string, heap *Heap) {
 		v.rets = append(v.rets, inlRet{guard: g, vals: vals, heap: heap.clone()})
 		return
 	}
-	env := v.paramEnv(heap.clone(), v.curVars, nil)
+	env := v.paramEnv(heap.clone(), v.curVars, v.curAddr)
 	env.old = v.preEnv
 	res := v.fn.Signature.Results()
 	for k := 0; k < res.Len(); k++ {
